@@ -24,3 +24,4 @@ package cbc
 //@ func (k Key) Has(ke) (r)
 //@   trusted reads its arguments only; the result is a function of the two keys
 //@   pure
+//@   function
